@@ -1,6 +1,7 @@
 (* MV.C13.DrillRun — evaluation of recorded runs of the real drill-master actor against the model
    (correspondence tie T1 through hook H3).  A case = abilities on offer, history, the answers the Go code gave,
-   the manager's members table and the launches per child name at the end. *)
+   the manager's members table and the launches per child name at the end (taken while the members whose
+   termination has begun but not ended are still held in the Terminating state: the model lists them too). *)
 From Coq Require Export String Ascii.
 From MV Require Import Lib.ListX C13.DrillModel.
 Open Scope nat_scope.
@@ -16,6 +17,7 @@ Definition out_eqb (a b : out) : bool :=
   | OErr, OErr => true
   | OCrash, OCrash => true
   | OStop x, OStop y => Bool.eqb x y
+  | OBegin x, OBegin y => Bool.eqb x y
   | _, _ => false
   end.
 
@@ -26,7 +28,7 @@ Definition out_eqb_noinst (a b : out) : bool :=
   | _, _ => out_eqb a b
   end.
 
-Definition op_key (o : op) : key := match o with Lookup i a => (i, a) | Stop i a => (i, a) end.
+Definition op_key (o : op) : key := match o with Lookup i a => (i, a) | Begin i a => (i, a) | Stop i a => (i, a) end.
 
 (* same pair <-> same actor instance, over all answers of a history *)
 Definition inst_consistent (t : list (op * out)) : bool :=
